@@ -217,3 +217,19 @@ func Bad_StrIndex(s string) byte {
 	}
 	return 0
 }
+
+// ---- a function literal handed to a callee may change the caller's variables
+func runIt(f func()) { f() }
+
+func Bad_ClosureArg() int {
+	x := 1
+	runIt(func() { x = 2 })
+	return x
+}
+
+func Ok_ClosureArg() int {
+	x := 1
+	y := 5
+	runIt(func() { x = 2 })
+	return y
+}
